@@ -318,6 +318,9 @@ class Origins:
                 if r is not None:
                     return frozenset(r)
             if isinstance(f, ast.Attribute):
+                if f.attr in ("items", "values", "get", "setdefault", "pop", "popitem") and not isinstance(f.value, ast.Constant):
+                    # elements handed out by a container are the container's own objects
+                    return self._viewify(self.of(f.value, at))
                 if f.attr in self.pd.FRESH_METHODS and not (kw_true(e, "inplace")):
                     if f.attr == "copy" and any(k.arg == "deep" and isinstance(k.value, ast.Constant) and k.value.value is False for k in e.keywords):
                         return self._viewify(self.of(f.value, at))
